@@ -749,4 +749,3 @@ func TestC15_Policy(t *testing.T) {
 		}
 	}, checkPolicy)
 }
-
